@@ -219,8 +219,23 @@ impl AnnotationStore {
             )
         });
         self.push_current_substore(handle);
-        self.merge_json_file(filename)?;
+        let result = self.merge_json_file(filename);
+        //(also on failure: otherwise everything loaded later would be assigned to this substore)
         self.pop_current_substore();
+        if let Err(e) = result {
+            // the substore could not be loaded: do not leave an empty shell behind
+            // (it would be written as @include of a file that was never read)
+            let substore: &AnnotationSubStore = self.get(handle)?;
+            if substore.annotations.is_empty()
+                && substore.resources.is_empty()
+                && substore.annotationsets.is_empty()
+                && handle.as_usize() + 1 == self.substores.len()
+            {
+                <Self as StoreFor<AnnotationSubStore>>::remove(self, handle)?;
+                self.substores.pop();
+            }
+            return Err(e);
+        }
         Ok(handle)
     }
 
